@@ -187,8 +187,21 @@ type mOutcome struct {
 // learnRequest applies the learning step of a request received on L.
 func (m *mModel) learnRequest(L *mTransport, srcIP string, msg *AMsg) {
 	m.learned[srcIP] = L
-	for _, v := range msg.Vias() {
-		m.learned[v.Host] = L
+	for _, h := range msg.Hdrs {
+		if h.Kind != hVia {
+			continue
+		}
+		// a line with an entry the proxy cannot decode is opaque to it as a whole:
+		// none of its entries teaches it anything
+		opaque := false
+		for _, v := range h.Vias {
+			opaque = opaque || v.Raw != ""
+		}
+		for _, v := range h.Vias {
+			if !opaque {
+				m.learned[v.Host] = L
+			}
+		}
 	}
 }
 
